@@ -475,6 +475,23 @@ def runExtra (r : Report) (sec line : Nat) (op : String) (obs : List String) : R
     else if kvStr obs "sameA" != "1" || kvStr obs "sameC" != "1" || kvStr obs "sameB" != "1" then
       r := r.violation sec line s!"parser / formatter instances that are alive at the same time influence each other: {joinSp obs}"
     else r := r.addCover "inter-instances-independent"
+  | "wrerr" =>
+    -- AST.Format ignores the error of the writer: format.Source behaves as on a good writer (model of the code that exists)
+    if kvStr obs "wr" == fmt then r := r.addCover ("wrerr-" ++ fmt)
+    else r := r.mismatch sec line s!"format.Source into a failing writer: {fmt}" (joinSp obs)
+  | "par" =>
+    if kvStr obs "same" != "1" then
+      r := r.violation sec line s!"concurrent format.Source calls influence each other: {joinSp obs}"
+    else r := r.addCover "par-same-as-sequential"
+  | "filex" =>
+    -- the model: the file cannot be read -> error, the file system is unchanged (Layout.file_error_keeps_fs)
+    let m := Layout.fileFormat (fun _ => .ok "OUT") ⟨fun _ => none, fun _ => true⟩ "f"
+    let mFile := if m.2.1 then "err" else "ok"
+    let mCreated := if (m.1.read "f").isSome then "1" else "0"
+    if kvStr obs "file" != mFile || kvStr obs "created" != mCreated then
+      r := r.mismatch sec line s!"format.File model (unreadable name): file={mFile} created={mCreated}" (joinSp obs)
+      r := r.violation sec line s!"format.File on a name that cannot be read must return an error and create nothing: {joinSp obs}"
+    else r := r.addCover "filex-error-nothing-created"
   | _ => r := r.mismatch sec line "bad-op" op
   return r
 
@@ -491,6 +508,9 @@ def runSection (r : Report) (s : Section) : Report := Id.run do
     | ["again"] => r := runExtra r s.idx l.idx "again" l.obs
     | ["file"] => r := runExtra r s.idx l.idx "file" l.obs
     | ["inter"] => r := runExtra r s.idx l.idx "inter" l.obs
+    | ["wrerr"] => r := runExtra r s.idx l.idx "wrerr" l.obs
+    | ["par"] => r := runExtra r s.idx l.idx "par" l.obs
+    | ["filex", k] => r := (runExtra r s.idx l.idx "filex" l.obs).addCover ("filex-" ++ k)
     | _ => r := r.mismatch s.idx l.idx "bad-op" (joinSp l.op)
   return r
 
